@@ -286,3 +286,27 @@ prop("C08",
                 "only the prefix property is judged. Sequence-number wrap is reached only in the core.",
      technique="runtime monitoring under message-level fault injection (virtual time) with online stream oracle; bounded-exhaustive differential monitor of the reassembly core; race detector",
      assumptions=["go1.26 testing/synctest virtual time"])
+
+prop("C09",
+     level="exploration",
+     parts=[{"engine": "tubes_stream", "race": True, "max_cases_per_child": 6}],
+     floor={"quick": 500, "thorough": 10000},
+     child_timeout={"quick": 1200, "thorough": 3400},
+     rule="Two real Muxers; per case two generations of 2-40 tube instances (65 % reliable, rest unreliable) opened concurrently from "
+          "both sides, each with a unique TubeType and its own keyed stream / unique messages; every instance carries data, is "
+          "closed from both ends, and the second generation reuses the ids after the reaper delay. Adversary: random cross-tube "
+          "reordering, duplicated initiation frames while the tube is alive, and copies of data/FIN/REQ frames of first-generation "
+          "instances released (a) right after close, before any id can be reused (must be harmless), (b) while the successor with "
+          "the same id carries data, (c) as late duplicate REQs after the tube was closed. Plus id-space exhaustion (128 per side and "
+          "kind, the 129th must fail with ErrOutOfTubes). Oracle: ids returned by Create* pairwise distinct among live tubes per "
+          "creator and kind; every opened tube offered by the peer's Accept exactly once with the opener's id, reliability and type, "
+          "and nothing else offered; every byte read on a reliable instance is the next byte of that instance's stream (foreign "
+          "bytes classified: predecessor-same-id / other-tube / unknown); every unreliable message equals one written message of "
+          "that instance. Non-trivial = a tube instance that was opened, matched with the peer's Accept and carried checked data (unique per case and instance).",
+     level_text="Exploration of concurrent open/transfer/close/reopen histories with per-instance keyed data and an adversary that "
+                "replays frames of closed instances, in virtual time with the race detector.",
+     level_note="Unreliable messages may be lost or reordered (never judged for completeness). Frames carry no tube incarnation: "
+                "what the successor of an id does with a stale frame released after the reaper window is a protocol limitation "
+                "recorded as a known finding with its own signature; releases within the window must be harmless and are judged.",
+     technique="runtime monitoring of per-instance keyed streams/messages under frame replay and reordering (virtual time), multiset oracle on Accept; race detector",
+     assumptions=["go1.26 testing/synctest virtual time"])
